@@ -30,9 +30,9 @@ Proof.
       assert (Hb : bget pb 0 = pget pb 0) by (symmetry; apply pget_bget_in; pose proof (len_nonneg pb); lia).
       change (0 - 1 <? 0) with true in Ep. cbv iota in Ep. inversion Ep; subst. rewrite Hb. reflexivity. }
   destruct (ch =? 94) eqn:Ec.
-  - destruct (parse_loop pb (parse_fuel pb) (snd (sc_next pb s1)) true [] false) as [[l t] s'| |]; try discriminate.
+  - destruct (parse_loop pb (parse_fuel pb) (snd (sc_next pb s1)) true [] false 0) as [[[l t] n] s'| |]; try discriminate.
     intros H. inversion H; subst. cbn. congruence.
-  - destruct (parse_loop pb (parse_fuel pb) s1 true [] false) as [[l t] s'| |]; try discriminate.
+  - destruct (parse_loop pb (parse_fuel pb) s1 true [] false 0) as [[[l t] n] s'| |]; try discriminate.
     intros H. inversion H; subst. cbn. congruence.
 Qed.
 
